@@ -2,6 +2,7 @@
 CONSTANTS NSrc = 7  NLab = 8  Fissile = {1, 2, 4}  MaxLevel = 4  SrcList = {}
 CONSTANT DirScen <- ScenQuick
 ACTION_CONSTRAINT Emit
+CONSTANT IdOf <- IdOf8
 INIT DInit
 NEXT DNext
 CONSTRAINT Bound
